@@ -109,6 +109,8 @@ def generate(rng, index, tier):
         omit = rng.choice([['parent_min_speed'], ['parent_speed_ratio'], ['parent_min_speed', 'parent_speed_ratio']])
     plan = {'seed': rng.getrandbits(32), 'net': net, 'npeers': npeers, 'min_speed': min_speed, 'ratio': ratio,
             'speed': rng.choice(speeds + [5 * max(ratio * 1024 // 10, 1)] * 6), 'omit': omit}
+    if rng.random() < 0.15:
+        plan['obf_dial'] = True
     n = rng.randint(3, 10)
     events = []
     acc, con = [], []            # peers with a connection from alice / towards alice (guess)
@@ -235,6 +237,10 @@ def corpus(tier):
     for order in ('lr', 'rl', 'l', 'r'):
         for level in (0, 3):
             out.append(_plan([conn('p2'), pot('p0', 'p1'), _ann('p0', order=order, level=level), conn('p3', gap=3.0)]))
+    # 1b. children that dial the obfuscated port, before and after a parent is found
+    for level in (0, 3):
+        out.append(dict(_plan([conn('p2'), pot('p0', 'p1'), _ann('p0', order='lr', level=level), conn('p3', gap=3.0),
+                               _ann('p0', order='l', level=level + 1, gap=3.0)]), obf_dial=True))
     # 2. the parent announces new values (level, root, both, level 0) with children present
     for order, level, root in (('l', 5, 'r1'), ('r', 2, 'r2'), ('lr', 4, 'r2'), ('rl', 4, 'r2'), ('l', 0, 'r1'),
                                ('lr', 0, 'p0')):
@@ -513,7 +519,12 @@ def _run(world: World, plan):
         world.net.connect_hook = connect_hook
 
     async def child_connect(peer, ticket):
-        link = await peer.connect_direct(alice.host.ip, 60000, 'D', ticket)
+        if plan.get('obf_dial'):
+            # a peer that prefers obfuscated ports: only the init message is obfuscated on a distributed connection
+            world.net.fired['distributed_dial_in_over_obfuscated_port'] += 1
+            link = await peer.connect_direct(alice.host.ip, 60001, 'D', ticket, obfuscated=True)
+        else:
+            link = await peer.connect_direct(alice.host.ip, 60000, 'D', ticket)
         rec = register_link(peer, link, 'con')
         await reader(rec)
 
